@@ -86,7 +86,7 @@ Proof.
   { unfold rt_pinv in *. eapply Forall_impl; [|exact P]. intros n. apply rt_node_from_mono. exact Sub. }
   clear P. set (E' := E ++ [ev]) in *.
   assert (Last : In ev E') by (apply in_or_app; right; left; reflexivity).
-  destruct ev as [dt|s m b cfg r| |s m|s m|s m tok|s reason|tmo|]; cbn [rt_step].
+  destruct ev as [dt|s m b cfg r| |s m|s m|s m tok|s reason|s m|tmo|]; cbn [rt_step].
   - cbn. split; [exact P'|constructor].
   - unfold rt_send. cbn [fst snd]. split.
     + apply rt_enqueue_pinv; [exact P'|]. exists cfg, r. cbn [qn_sess qn_mid qn_bytes qn_timeout qn_max]. auto.
@@ -138,6 +138,10 @@ Proof.
       { unfold rt_pinv in P'. rewrite Forall_forall in P'. apply P'.
         eapply Permutation_in; [apply Permutation_sym; exact Pm|]. apply in_or_app. left. exact Iy. }
       destruct Hy as (cfg & r & I2 & A & B). cbn. exists (qn_bytes y), cfg, r. auto.
+  - unfold rt_delete. destruct (sq_remove (rs_q st) s m) as [[[t n] q']|] eqn:Rm; cbn [fst snd].
+    + destruct (rt_nodes_remove _ _ _ _ _ _ Rm) as [Pm _]. split; [|repeat constructor].
+      apply rt_pinv_sub; [exact P'|]. intros x I. eapply Permutation_in; [apply Permutation_sym; exact Pm|]. right. exact I.
+    + split; [exact P'|constructor].
   - unfold rt_io_process, rt_fire_all.
     destruct (rt_fire_pinv E' (rt_budget (rs_q st)) st P') as [P1 O1].
     destruct (rt_fire (rt_budget (rs_q st)) st) as [st1 o1]. cbn [fst snd] in *.
